@@ -14,6 +14,18 @@ theorem splitAux_append_blank (s : List Char) (acc : Tok) (b : Char) (hb : isBla
     simp only [List.cons_append, splitAux]
     by_cases hc : isBlank c = true <;> by_cases h : acc.isEmpty <;> simp [hc, h, ih]
 
+theorem splitAux_append_blanks (s tb : List Char) (acc : Tok) (h : ∀ x ∈ tb, isBlank x = true) :
+    splitAux (s ++ tb) acc = splitAux s acc := by
+  induction tb generalizing s with
+  | nil => simp
+  | cons b tb ih =>
+    have : s ++ b :: tb = (s ++ [b]) ++ tb := by simp
+    rw [this, ih (s ++ [b]) (fun x hx => h x (by simp [hx])), splitAux_append_blank s acc b (h b (by simp))]
+
+/-- white space at the end of a line does not change its tokens -/
+theorem split_append_blanks (s tb : List Char) (h : ∀ x ∈ tb, isBlank x = true) : split (s ++ tb) = split s :=
+  splitAux_append_blanks s tb [] h
+
 /-- the tokens of a line do not depend on its terminating newline -/
 theorem split_append_nl (body : List Char) : split (body ++ ['\n']) = split body :=
   splitAux_append_blank body [] '\n' (by decide)
